@@ -40,13 +40,16 @@ func (core *JApiCore) addMacro(d *directive.Directive) *jerr.JApiError {
 	}
 
 	core.macro[name] = d
+	core.macroNames = append(core.macroNames, name)
 
 	return nil
 }
 
 func (core *JApiCore) checkMacroForRecursion() *jerr.JApiError {
-	for macroName, macro := range core.macro {
-		if je := findPaste(macroName, macro); je != nil {
+	// In the order of definition: which error is reported must not depend on the
+	// iteration order of a map.
+	for _, macroName := range core.macroNames {
+		if je := findPaste(macroName, core.macro[macroName]); je != nil {
 			return je
 		}
 	}
